@@ -246,13 +246,19 @@ def T2.ofM3 (A : M3 K) : T2 K
   | 1, 0 => A.a10 | 1, 1 => A.a11 | 1, 2 => A.a12
   | 2, 0 => A.a20 | 2, 1 => A.a21 | 2, 2 => A.a22
 
+/-- 2D matrix: in-plane block and the `(2,2)` entry -/
+def _root_.TfelVerif.M3.plane (A : M3 K) : M3 K := ⟨A.a00, A.a01, 0, A.a10, A.a11, 0, 0, 0, A.a22⟩
+/-- entries in row-major order -/
+def _root_.TfelVerif.M3.rowMajor (A : M3 K) : List K := [A.a00, A.a01, A.a02, A.a10, A.a11, A.a12, A.a20, A.a21, A.a22]
+
 /-! ### applying a generated definition to the entries of a stored vector / matrix
 
-`gen% f | a 6 6 | s 6` is `f (a 0 0) (a 0 1) … (a 5 5) (s 0) … (s 5)`: the generated definitions take
+`gen% f | a 6 6 | s 6 | k` is `f (a 0 0) (a 0 1) … (a 5 5) (s 0) … (s 5) k`: the generated definitions take
 one scalar argument per stored component, in storage order (matrices row major). -/
 declare_syntax_cat genarg
 syntax term:max num num : genarg
 syntax term:max num : genarg
+syntax term:max : genarg
 syntax "gen% " term:max (" | " genarg)* : term
 open Lean in
 macro_rules
@@ -267,6 +273,7 @@ macro_rules
       | `(genarg| $x:term $r:num) =>
         for i in [0:r.getNat] do
           t ← `($t ($x $(quote i)))
+      | `(genarg| $x:term) => t ← `($t $x)
       | _ => Macro.throwUnsupported
     return t
 
